@@ -9,8 +9,9 @@ import (
 
 // Token classes (DESIGN section 4).
 
-// IsPlain - does not start with a dash.
-func IsPlain(t string) bool { return !strings.HasPrefix(t, "-") }
+// IsPlain - plain text: does not start with a dash, or is of the shape `-=...` (a dash followed by `=` names no option:
+// the library's splitter needs at least one name character, so such a token is text like any other).
+func IsPlain(t string) bool { return !strings.HasPrefix(t, "-") || strings.HasPrefix(t, "-=") }
 
 // IsOptLooking - `-`, `-<name>...`, `--<name>...` where <name> starts with something other than `-` and `=`.
 func IsOptLooking(t string) bool {
@@ -30,10 +31,12 @@ func IsOptLooking(t string) bool {
 	return rest[0] != '-' && rest[0] != '='
 }
 
+// note: `--=x` and `---x` stay grey (the library reads them as options named `-` / `-x`)
+
 // IsGrey - starts with a dash but is neither `--` nor option-looking (`-=x`, `--=x`, `---x`):
 // the statements do not say what these are, semantic generators never produce them.
 func IsGrey(t string) bool {
-	return strings.HasPrefix(t, "-") && t != "--" && !IsOptLooking(t)
+	return strings.HasPrefix(t, "-") && t != "--" && !IsOptLooking(t) && !IsPlain(t)
 }
 
 // ProgCfg - knobs of the program generator.
@@ -60,6 +63,8 @@ type ProgCfg struct {
 	SetCalled    int // percent of options defined with SetCalled(true)
 	FnErr        bool
 	ForceKinds   []Kind // kinds of the first root options
+	Valid        int    // percent of string-kind options restricted to valid values
+	LateOpts     int    // percent of nodes with commands that get an option declared after their commands (needs Help)
 }
 
 var AllKinds = []Kind{KBool, KIncr, KString, KInt, KFloat, KStringOpt, KIntOpt, KFloatOpt, KStrings, KInts, KFloats, KMap}
@@ -69,7 +74,7 @@ func DefaultCfg() ProgCfg {
 	return ProgCfg{
 		Kinds: AllKinds, RootOpts: [2]int{2, 6}, CmdOpts: [2]int{0, 3}, MaxDepth: 2, MaxFan: 3,
 		Wrapper: true, Help: false, ReqOrder: false, CmdModes: true, Multibyte: true, Aliases: 2,
-		Modes: []int{0, 1, 2}, Unknowns: []int{0, 1, 2}, MaxMulti: 3, NestedNames: true, FnLess: false,
+		Modes: []int{0, 1, 2}, Unknowns: []int{0, 1, 2}, MaxMulti: 3, NestedNames: true, FnLess: false, LateOpts: 30,
 	}
 }
 
@@ -250,6 +255,9 @@ func GenProg(r *Rng, cfg ProgCfg) *Prog {
 					}
 				}
 			}
+			if cfg.Valid > 0 && o.Env == "" && (o.Kind == KString || o.Kind == KStringOpt || o.Kind == KStrings) && r.Intn(100) < cfg.Valid {
+				o.Valid = []string{"va" + strconv.Itoa(o.ID), "vb", "v c"}
+			}
 			if cfg.SetCalled > 0 && r.Intn(100) < cfg.SetCalled {
 				o.SetCalled = true
 			}
@@ -278,6 +286,19 @@ func GenProg(r *Rng, cfg ProgCfg) *Prog {
 				used[cn] = true
 				c.Cmds = append(c.Cmds, genCmd(cn, depth+1, taken, false))
 			}
+		}
+		if p.Help != "" && len(c.Cmds) > 0 && cfg.LateOpts > 0 && r.Intn(100) < cfg.LateOpts {
+			// an option declared after the commands of its level (names outside the ordinary alphabets: no clash below)
+			k := []Kind{KBool, KString, KInt, KStrings}[r.Intn(4)]
+			o := &Opt{ID: id, Kind: k, Name: fmt.Sprintf("j%dj", id), Late: true, UseVar: r.Bool(), Desc: fmt.Sprintf("D%dD", id)}
+			if r.Bool() {
+				o.Aliases = []string{fmt.Sprintf("J%d", id)}
+			}
+			if k == KStrings {
+				o.Min, o.Max = 1, 1+r.Intn(2)
+			}
+			id++
+			c.Opts = append(c.Opts, o)
 		}
 		return c
 	}
@@ -332,7 +353,7 @@ func (p *Payloads) ValueFor(k Kind) string {
 	return p.Str()
 }
 
-var unkLetters = []string{"x", "y", "z", "ñ"}
+var unkLetters = []string{"x", "y", "z", "ñ", "x", "y", "z", "2", "7"} // digits: `-2` is an unknown option, not a negative number
 
 // UnkName - candidate unknown option name (caller checks it against the level).
 func (p *Payloads) UnkName(long bool) string {
